@@ -8,6 +8,8 @@ import (
 	"os"
 	"syscall"
 	"time"
+
+	"github.com/pkg/xattr"
 )
 
 func verifNameAlphabet(s string) {
@@ -214,6 +216,34 @@ func VerifC18_Sequences() {
 	vCover("untar-returned")
 	if err == nil {
 		vCover("untar-succeeded")
+	}
+	check()
+}
+
+func (a *verifArchive) xattr(name, val string) {
+	nv := name + "\x00" + val
+	a.enc.Encode(FormatXAttr{FormatHeader: FormatHeader{Size: uint64(16 + len(nv) + 1), Type: CaFormatXAttr}, NameAndValue: nv})
+}
+
+// VerifC18_SymlinkXattr: a symlink entry that carries an extended attribute and points
+// (symbolic target) wherever the archive likes: the attribute is never written onto an object
+// outside the destination (it belongs to the link itself, if anywhere).
+func VerifC18_SymlinkXattr() {
+	parent, dest, check := verifSandbox()
+	a := newVerifArchive()
+	a.entry(os.ModeDir | 0755)
+	a.filename(verifSymName("linkname", 1))
+	a.entry(os.ModeSymlink | 0777)
+	a.xattr("user.verif", "x")
+	a.symlink(verifSymName("target", 4))
+	a.goodbye()
+	fs := NewLocalFS(dest, LocalFSOptions{})
+	err := UnTar(context.Background(), bytes.NewReader(a.buf.Bytes()), fs)
+	vCover("untar-returned")
+	_ = err
+	for _, p := range []string{parent, parent + "/sentinel", parent + "/sib", parent + "/sib/inner", "/"} {
+		names, lerr := xattr.LList(p)
+		vAssert(lerr != nil || len(names) == 0, "an extended attribute was written onto an object outside the destination")
 	}
 	check()
 }
